@@ -16,18 +16,21 @@ use crate::rng::Rng;
 pub struct RecSink {
     nv: usize,
     clauses: Vec<Vec<i32>>,
+    /// WCNF: hard (`None`) and soft (`Some(weight)`) clauses in file order
+    weighted: Vec<(Option<u32>, Vec<i32>)>,
 }
 
 impl DimacsSink for RecSink {
     type ConstructorArgs = ();
     fn empty(_: (), num_variables: usize) -> Self {
-        RecSink { nv: num_variables, clauses: vec![] }
+        RecSink { nv: num_variables, clauses: vec![], weighted: vec![] }
     }
     fn add_hard_clause(&mut self, clause: &[NonZeroI32]) {
         self.clauses.push(clause.iter().map(|l| l.get()).collect());
+        self.weighted.push((None, clause.iter().map(|l| l.get()).collect()));
     }
-    fn add_soft_clause(&mut self, _weight: NonZeroU32, _clause: &[NonZeroI32]) {
-        unreachable!("cnf has no soft clauses")
+    fn add_soft_clause(&mut self, weight: NonZeroU32, clause: &[NonZeroI32]) {
+        self.weighted.push((Some(weight.get()), clause.iter().map(|l| l.get()).collect()));
     }
 }
 
@@ -67,17 +70,105 @@ pub fn run_real(bytes: &[u8], chunk_seed: Option<u64>) -> String {
             }
             s
         }
-        Err(e) => match e {
-            DimacsParseError::Io(_) => "err io".to_string(),
-            DimacsParseError::MissingHeader => "err missingHeader".to_string(),
-            DimacsParseError::InvalidHeader(_) => "err invalidHeader".to_string(),
-            DimacsParseError::DuplicateHeader => "err duplicateHeader".to_string(),
-            DimacsParseError::UnexpectedCharacter(c) => format!("err unexpectedChar {}", c as u32),
-            DimacsParseError::InvalidLiteral(_) => "err invalidLiteral".to_string(),
-            DimacsParseError::UnterminatedClause => "err unterminated".to_string(),
-            DimacsParseError::IncorrectClauseCount { expected, parsed } => format!("err clauseCount {} {}", expected, parsed),
-        },
+        Err(e) => err_text(e),
     }
+}
+
+fn err_text(e: DimacsParseError) -> String {
+    match e {
+        DimacsParseError::Io(_) => "err io".to_string(),
+        DimacsParseError::MissingHeader => "err missingHeader".to_string(),
+        DimacsParseError::InvalidHeader(_) => "err invalidHeader".to_string(),
+        DimacsParseError::DuplicateHeader => "err duplicateHeader".to_string(),
+        DimacsParseError::UnexpectedCharacter(c) => format!("err unexpectedChar {}", c as u32),
+        DimacsParseError::InvalidLiteral(_) => "err invalidLiteral".to_string(),
+        DimacsParseError::UnterminatedClause => "err unterminated".to_string(),
+        DimacsParseError::IncorrectClauseCount { expected, parsed } => format!("err clauseCount {} {}", expected, parsed),
+    }
+}
+
+/// the real `parse_wcnf` with the recording sink; a panic of the clause callback is an answer too
+pub fn run_real_wcnf(bytes: &[u8], chunk_seed: Option<u64>) -> String {
+    let res = std::panic::catch_unwind(|| match chunk_seed {
+        None => dimacs_real::parse_wcnf::<RecSink>(bytes, ()),
+        Some(s) => dimacs_real::parse_wcnf::<RecSink>(Chunky { data: bytes, pos: 0, rng: Rng::new(s) }, ()),
+    });
+    match res {
+        Err(_) => "err panicked".to_string(),
+        Ok(Err(e)) => err_text(e),
+        Ok(Ok(sink)) => {
+            let mut s = format!("ok {} {}", sink.nv, sink.weighted.len());
+            for (w, c) in &sink.weighted {
+                match w {
+                    None => s.push_str(" h"),
+                    Some(w) => s.push_str(&format!(" s {}", w)),
+                }
+                s.push_str(&format!(" {}", c.len()));
+                for l in c {
+                    s.push_str(&format!(" {}", l));
+                }
+            }
+            s
+        }
+    }
+}
+
+/// a WCNF file: the CNF layouts with a weight in front of every clause and a `p wcnf` header
+pub fn gen_wcnf(r: &mut Rng) -> Vec<u8> {
+    let cnf = gen_file(r);
+    let top = 1 + r.usize(9);
+    let mut out: Vec<u8> = vec![];
+    // rewrite the header and put a weight at the start of every clause; done on the text so that
+    // all layout quirks of `gen_file` carry over
+    let text = String::from_utf8_lossy(&cnf).into_owned();
+    let mut at_clause_start = true;
+    let mut i = 0;
+    let b = text.as_bytes();
+    while i < b.len() {
+        if b[i..].starts_with(b"p cnf ") && r.chance(19, 20) {
+            out.extend_from_slice(b"p wcnf ");
+            i += 6;
+            // copy the rest of the header line and append the top weight
+            let mut line: Vec<u8> = vec![];
+            while i < b.len() && b[i] != b'\n' {
+                line.push(b[i]);
+                i += 1;
+            }
+            out.extend(&line);
+            if r.chance(19, 20) {
+                out.extend(format!(" {}", top).bytes());
+            }
+            continue;
+        }
+        let c = b[i];
+        if at_clause_start && (c == b'-' || c.is_ascii_digit()) && r.chance(24, 25) {
+            let w = match r.usize(12) {
+                0 => top,
+                1 => 0,
+                2 => 4294967295usize.min(usize::MAX),
+                _ => 1 + r.usize(9),
+            };
+            if r.chance(1, 30) {
+                out.push(b'-');
+            }
+            out.extend(format!("{} ", w).bytes());
+            at_clause_start = false;
+        }
+        if c == b'0' && (i == 0 || !b[i - 1].is_ascii_digit() && b[i - 1] != b'-') && (i + 1 >= b.len() || !b[i + 1].is_ascii_digit()) {
+            at_clause_start = true;
+        }
+        if c == b'c' && (i == 0 || b[i - 1] == b'\n') {
+            // comment line: copy verbatim
+            while i < b.len() && b[i] != b'\n' {
+                out.push(b[i]);
+                i += 1;
+            }
+            continue;
+        }
+        out.push(c);
+        i += 1;
+    }
+    out
 }
 
 fn ws_run(r: &mut Rng, alphabet: &[u8], min: usize, max: usize) -> Vec<u8> {
